@@ -203,7 +203,7 @@ class Obligation:
 
 
 class Engine:
-    def __init__(self, repo=None, feas_timeout_ms=150, max_depth=40):
+    def __init__(self, repo=None, feas_timeout_ms=60, max_depth=40):
         self.repo = repo or Repo()
         self.notes = set()
         self.obligations = []
